@@ -51,24 +51,39 @@ def loadParamInstanceRef (x : XmlNode) : LoadM (String × Bool) := do
   let n ← x.attr! "parameterRef"
   pure (n, boolAttr x "useCalibratedValue" true)
 
-def loadCondition (ens : Option String) (x : XmlNode) : LoadM Condition := do
-  let opEl ← match findFirst ens [step "ComparisonOperator"] x with
-    | some e => pure e | none => throw Err.other       -- `None.text`
-  let op ← match opEl.text with | some t => pure t | none => throw Err.value   -- `None not in table`: ValueError
-  let params := findAll ens [step "ParameterInstanceRef"] x
+/-- The operands of a Condition: one ParameterInstanceRef and a Value, or two ParameterInstanceRefs. -/
+def condFromParts (op : String) (params : List XmlNode) (valueText : Option (Option String)) : LoadM Condition :=
   match params with
   | [p] =>
-    let (l, lc) ← loadParamInstanceRef p
-    let vEl ← match findFirst ens [step "Value"] x with | some e => pure e | none => throw Err.other
-    if (lookupOp op).isNone then throw .value
-    -- right_value may be None/empty (falsy): then no check fires
-    pure { left := l, op := op, rightParam := none, rightValue := vEl.text, leftCal := lc, rightCal := false }
+    match loadParamInstanceRef p with
+    | .error e => .error e
+    | .ok (l, lc) =>
+      match valueText with
+      | none => .error .other
+      | some vt =>
+        if (lookupOp op).isNone then .error .value
+        -- right_value may be None/empty (falsy): then no check fires
+        else .ok { left := l, op := op, rightParam := none, rightValue := vt, leftCal := lc, rightCal := false }
   | [p, q] =>
-    let (l, lc) ← loadParamInstanceRef p
-    let (r, rc) ← loadParamInstanceRef q
-    if (lookupOp op).isNone then throw .value
-    pure { left := l, op := op, rightParam := some r, rightValue := none, leftCal := lc, rightCal := rc }
-  | _ => throw .value
+    match loadParamInstanceRef p with
+    | .error e => .error e
+    | .ok (l, lc) =>
+      match loadParamInstanceRef q with
+      | .error e => .error e
+      | .ok (r, rc) =>
+        if (lookupOp op).isNone then .error .value
+        else .ok { left := l, op := op, rightParam := some r, rightValue := none, leftCal := lc, rightCal := rc }
+  | _ => .error .value
+
+def loadCondition (ens : Option String) (x : XmlNode) : LoadM Condition :=
+  match findFirst ens [step "ComparisonOperator"] x with
+  | none => .error .other                               -- `None.text`
+  | some opEl =>
+    match opEl.text with
+    | none => .error .value                             -- `None not in table`: ValueError
+    | some op =>
+      condFromParts op (findAll ens [step "ParameterInstanceRef"] x)
+        ((findFirst ens [step "Value"] x).map (·.text))
 
 mutual
 def loadAnded (ens : Option String) : Nat → XmlNode → LoadM Anded
@@ -257,6 +272,58 @@ def mkStrEnc (encoding : String) (byteOrder : Option String) (fixed : Option Int
   pure { encoding := encoding, fixedLength := fixed, dynRef := dyn, lookup := lookup, useCal := useCal,
          adjuster := adj, termChar := term, leadingSize := leading, byteOrder := bo }
 
+/-- The element that carries the size specification (and the termination character / leading size). -/
+def strSizeEl (ens : Option String) (x : XmlNode) : Option XmlNode :=
+  match findFirst ens [step "SizeInBits"] x with
+  | some se => some se
+  | none => findFirst ens [step "Variable"] x
+
+/-- A `(parameterRef, useCalibratedValue, LinearAdjustment)` size reference below a `DynamicValue` element. -/
+def loadDynamicValue (ens : Option String) (dv : XmlNode) : LoadM (String × Bool × Option LinAdj) :=
+  match findFirst ens [step "ParameterInstanceRef"] dv with
+  | none => .error .other
+  | some pir =>
+    match pir.attr! "parameterRef" with
+    | .error e => .error e
+    | .ok ref =>
+      match loadLinearAdjuster ens dv with
+      | .error e => .error e
+      | .ok adj => .ok (ref, isTrueWord ((pir.attr? "useCalibratedValue").getD "true"), adj)
+
+/-- The size specification of a string encoding: (fixed, dynamic reference, use calibrated, adjuster, lookup). -/
+def loadStrSpec (ens : Option String) (x : XmlNode) :
+    LoadM (Option Int × Option String × Bool × Option LinAdj × Option (List DiscreteLookup)) :=
+  match findFirst ens [step "SizeInBits"] x with
+  | some se =>
+    match findFirst ens [step "Fixed", step "FixedValue"] se with
+    | some e => match readIntOpt e.text with
+      | .ok fv => .ok (some fv, none, true, none, none)
+      | .error err => .error err
+    | none => .error .other
+  | none => match findFirst ens [step "Variable"] x with
+    | some ve =>
+      match findFirst ens [step "DynamicValue"] ve with
+      | some dv => match loadDynamicValue ens dv with
+        | .ok (ref, uc, adj) => .ok (none, some ref, uc, adj, none)
+        | .error err => .error err
+      | none => match findFirst ens [step "DiscreteLookupList"] ve with
+        | some dl => match dl.elems.mapM (loadDiscreteLookup ens) with
+          | .ok l => .ok (none, none, true, none, some l)
+          | .error err => .error err
+        | none => .error .value
+    | none => .error .value
+
+/-- Termination character (hex text) and leading size, children of the size element. -/
+def loadStrTail (ens : Option String) (sizeEl : XmlNode) : LoadM (Option String × Option Int) :=
+  let termHex := (findFirst ens [step "TerminationChar"] sizeEl).bind (·.text)
+  match findFirst ens [step "LeadingSize"] sizeEl with
+  | some e => match e.attr! "sizeInBitsOfSizeTag" with
+    | .error err => .error err
+    | .ok v => match readInt v with
+      | .error err => .error err
+      | .ok n => .ok (termHex, some n)
+  | none => .ok (termHex, none)
+
 def loadStringEncoding (ens : Option String) (x : XmlNode) : LoadM Encoding := do
   let encoding := (x.attr? "encoding").getD "UTF-8"
   let byteOrder : Option String ←
@@ -265,33 +332,10 @@ def loadStringEncoding (ens : Option String) (x : XmlNode) : LoadM Encoding := d
       | some b => pure (some b)
       | none => throw Err.value
     else pure none
-  let (sizeEl, fixed, dyn, useCal, adj, lookup) ← match findFirst ens [step "SizeInBits"] x with
-    | some se => do
-      let fv ← match findFirst ens [step "Fixed", step "FixedValue"] se with
-        | some e => readIntOpt e.text
-        | none => throw Err.other
-      pure (se, some fv, none, true, none, none)
-    | none => match findFirst ens [step "Variable"] x with
-      | some ve =>
-        match findFirst ens [step "DynamicValue"] ve with
-        | some dv => do
-          let pir ← match findFirst ens [step "ParameterInstanceRef"] dv with | some e => pure e | none => throw Err.other
-          let ref ← pir.attr! "parameterRef"
-          let uc := isTrueWord ((pir.attr? "useCalibratedValue").getD "true")
-          let adj ← loadLinearAdjuster ens dv
-          pure (ve, none, some ref, uc, adj, none)
-        | none => match findFirst ens [step "DiscreteLookupList"] ve with
-          | some dl => do
-            let l ← dl.elems.mapM (loadDiscreteLookup ens)
-            pure (ve, none, none, true, none, some l)
-          | none => throw Err.value
-      | none => throw Err.value
-  let termHex ← match findFirst ens [step "TerminationChar"] sizeEl with
-    | some e => match e.text with | some t => pure (some t) | none => pure none
-    | none => pure none
-  let leading ← match findFirst ens [step "LeadingSize"] sizeEl with
-    | some e => do pure (some (← readInt (← e.attr! "sizeInBitsOfSizeTag")))
-    | none => pure none
+  let (fixed, dyn, useCal, adj, lookup) ← loadStrSpec ens x
+  let (termHex, leading) ← match strSizeEl ens x with
+    | some sizeEl => loadStrTail ens sizeEl
+    | none => throw Err.value
   let se ← mkStrEnc encoding byteOrder fixed dyn lookup useCal adj termHex leading
   pure (.str se)
 
@@ -302,10 +346,7 @@ def loadBinaryEncoding (ens : Option String) (x : XmlNode) : LoadM Encoding :=
     pure (.bin { fixedSize := some n, sizeRef := none, useCal := true, lookup := none, adjuster := none })
   | none => match findFirst ens [step "SizeInBits", step "DynamicValue"] x with
     | some dv => do
-      let pir ← match findFirst ens [step "ParameterInstanceRef"] dv with | some e => pure e | none => throw Err.other
-      let ref ← pir.attr! "parameterRef"
-      let uc := isTrueWord ((pir.attr? "useCalibratedValue").getD "true")
-      let adj ← loadLinearAdjuster ens dv
+      let (ref, uc, adj) ← loadDynamicValue ens dv
       pure (.bin { fixedSize := none, sizeRef := some ref, useCal := uc, lookup := none, adjuster := adj })
     | none => match findFirst ens [step "SizeInBits", step "DiscreteLookupList"] x with
       | some dl => do
